@@ -200,7 +200,7 @@ def _return_type(name):
 
 
 _SRCF = '''
-@ob(budget=90, family='return-type', tier={tier!r}, bound='fn:{fname} with symbolic arguments (ints unbounded, strings of length <= 2, sequences of length 0..2): result matches the registered return type',
+@ob(budget={budget}, kind={kind!r}, family='return-type', tier={tier!r}, bound='fn:{fname} with symbolic arguments (ints unbounded, strings of length <= 2, sequences of length 0..2): result matches the registered return type',
     funcs=['elementpath/xpath1/xpath1_parser.py:function registration', ST + ':match_sequence_type'])
 def returns_{pyname}(s0: int, s1: int, n: int, a: int, s: str, t: str) -> bool:
     """
@@ -215,7 +215,10 @@ def returns_{pyname}(s0: int, s1: int, n: int, a: int, s: str, t: str) -> bool:
     return rt is None or match_sequence_type(r, rt, P31)
 '''
 for _i, _f in enumerate(sorted(FUNCS)):
-    define(_SRCF.format(fname=_f, pyname=_f.replace('-', '_'), tier='quick'), globals())
+    # fn:avg / fn:number / fn:string on the symbolic arguments keep forking (float and string models): bug-hunting; their empty-sequence
+    # case is decided by returns_on_empty_sequence
+    _h = _f in ('avg', 'number', 'string')
+    define(_SRCF.format(fname=_f, pyname=_f.replace('-', '_'), tier='quick', budget=60 if _h else 90, kind='hunt' if _h else 'main'), globals())
 
 
 # --- added after round-2 seeded changes: map(K, V) / array(T) / function tests, also with nested value types -----------------------
